@@ -670,52 +670,145 @@ func genKeys(w *bufio.Writer, root *lib.Rng, n int, id *int) {
 	}
 }
 
-// valid lattice geometries for the Union relation: points, multipoints, linestrings with distinct
-// consecutive vertices, axis-parallel rectangles, and collections of those
-func validGeom(r *lib.Rng, depth int) geom.Geometry {
-	c := func() float64 { return float64(r.Range(0, 6)) }
-	switch k := r.Intn(5); {
-	case k == 0:
-		return geom.NewPoint(geom.Coordinates{XY: geom.XY{X: c(), Y: c()}}).AsGeometry()
-	case k == 1:
-		m := r.Range(0, 3)
+// valid lattice geometries for the Union relation, of a requested kind (0 Point, 1 MultiPoint,
+// 2 LineString, 3 Polygon, 4 MultiLineString, 5 MultiPolygon, 6 GeometryCollection), translated by
+// (ox, oy) so that the origin can be kept outside every envelope, with EMPTY members inserted at
+// random positions of Multi*/collections (empty members are valid).
+type vgen struct {
+	r      *lib.Rng
+	ox, oy float64
+}
+
+func (v vgen) x() float64 { return v.ox + float64(v.r.Range(0, 6)) }
+func (v vgen) y() float64 { return v.oy + float64(v.r.Range(0, 6)) }
+
+func (v vgen) point() geom.Point {
+	return geom.NewPoint(geom.Coordinates{XY: geom.XY{X: v.x(), Y: v.y()}})
+}
+
+func (v vgen) line() geom.LineString {
+	m := v.r.Range(2, 4)
+	var fs []float64
+	for i := 0; i < m; i++ {
+		x, y := v.x(), v.y()
+		for i > 0 && x == fs[len(fs)-2] && y == fs[len(fs)-1] {
+			x, y = v.x(), v.y()
+		}
+		fs = append(fs, x, y)
+	}
+	return geom.NewLineString(geom.NewSequence(fs, geom.DimXY))
+}
+
+// rect is an axis-parallel rectangle inside the x-slab [3*slab, 3*slab+2] (slabs keep the members
+// of a MultiPolygon disjoint)
+func (v vgen) rect(slab int) geom.Polygon {
+	x0 := v.ox + float64(3*slab+v.r.Intn(2))
+	x1 := x0 + 1
+	y0 := v.oy + float64(v.r.Range(0, 4))
+	y1 := y0 + float64(v.r.Range(1, 2))
+	fs := []float64{x0, y0, x1, y0, x1, y1, x0, y1, x0, y0}
+	return geom.NewPolygon([]geom.LineString{geom.NewLineString(geom.NewSequence(fs, geom.DimXY))})
+}
+
+// emptyAt tells, for a member list of length m, which positions hold an EMPTY member
+func (v vgen) emptyAt(m int) []bool {
+	e := make([]bool, m)
+	if m > 0 && v.r.Chance(2, 3) {
+		e[v.r.Intn(m)] = true // first, middle or last
+		if v.r.Chance(1, 3) {
+			e[v.r.Intn(m)] = true
+		}
+	}
+	return e
+}
+
+func (v vgen) geom(kind, depth int) geom.Geometry {
+	r := v.r
+	switch kind {
+	case 0:
+		return v.point().AsGeometry()
+	case 1:
+		m := r.Range(1, 4)
+		e := v.emptyAt(m)
 		ps := make([]geom.Point, m)
 		for i := range ps {
-			ps[i] = geom.NewPoint(geom.Coordinates{XY: geom.XY{X: c(), Y: c()}})
+			if e[i] {
+				ps[i] = geom.NewEmptyPoint(geom.DimXY)
+			} else {
+				ps[i] = v.point()
+			}
 		}
 		return geom.NewMultiPoint(ps).AsGeometry()
-	case k == 2:
-		m := r.Range(2, 4)
-		var fs []float64
-		var px, py float64 = -1, -1
-		for i := 0; i < m; i++ {
-			x, y := c(), c()
-			for x == px && y == py {
-				x, y = c(), c()
+	case 2:
+		return v.line().AsGeometry()
+	case 3:
+		return v.rect(r.Intn(2)).AsGeometry()
+	case 4:
+		m := r.Range(1, 3)
+		e := v.emptyAt(m)
+		ls := make([]geom.LineString, m)
+		for i := range ls {
+			if !e[i] {
+				ls[i] = v.line()
 			}
-			fs = append(fs, x, y)
-			px, py = x, y
 		}
-		return geom.NewLineString(geom.NewSequence(fs, geom.DimXY)).AsGeometry()
-	case k == 3 || depth <= 0:
-		x0, y0 := float64(r.Range(0, 4)), float64(r.Range(0, 4))
-		x1, y1 := x0+float64(r.Range(1, 3)), y0+float64(r.Range(1, 3))
-		fs := []float64{x0, y0, x1, y0, x1, y1, x0, y1, x0, y0}
-		return geom.NewPolygon([]geom.LineString{geom.NewLineString(geom.NewSequence(fs, geom.DimXY))}).AsGeometry()
+		return geom.NewMultiLineString(ls).AsGeometry()
+	case 5:
+		m := r.Range(1, 2)
+		e := v.emptyAt(m)
+		ps := make([]geom.Polygon, m)
+		for i := range ps {
+			if !e[i] {
+				ps[i] = v.rect(i)
+			}
+		}
+		return geom.NewMultiPolygon(ps).AsGeometry()
 	default:
 		m := r.Range(0, 3)
+		e := v.emptyAt(m)
 		gs := make([]geom.Geometry, m)
 		for i := range gs {
-			gs[i] = validGeom(r, depth-1)
+			switch {
+			case e[i]:
+				gs[i] = []geom.Geometry{geom.NewEmptyPoint(geom.DimXY).AsGeometry(), geom.LineString{}.AsGeometry(),
+					geom.Polygon{}.AsGeometry(), geom.MultiPoint{}.AsGeometry(), geom.GeometryCollection{}.AsGeometry()}[r.Intn(5)]
+			case depth > 0:
+				gs[i] = v.geom(r.Intn(7), depth-1)
+			default:
+				gs[i] = v.geom(r.Intn(6), 0)
+			}
 		}
 		return geom.NewGeometryCollection(gs).AsGeometry()
 	}
 }
 
-func genUnion(w *bufio.Writer, root *lib.Rng, n int, id *int) {
+// genUnion: Union over every ordered pair of kinds (49 combinations in turn) and UnionMany over
+// lists of 0..4 geometries; the operands are translated into one of the four quadrants (or left at
+// the origin) so that (0 0) lies outside the joined envelope in four cases out of five.
+func genUnion(w *bufio.Writer, root *lib.Rng, n int, id *int, kinds map[string]int) {
+	names := []string{"P", "MP", "L", "Y", "ML", "MY", "GC"}
 	for i := 0; i < n; i++ {
 		r := root.Fork()
-		a, b := validGeom(r, 1), validGeom(r, 1)
+		off := [][2]float64{{10, 10}, {-20, 10}, {-20, -20}, {10, -20}, {0, 0}}[i%5]
+		v := vgen{r: r, ox: off[0] + float64(r.Intn(5)), oy: off[1] + float64(r.Intn(5))}
+		var ops []geom.Geometry
+		op := "union"
+		if i%4 == 3 {
+			op = "unionmany"
+			m := r.Range(0, 4)
+			for j := 0; j < m; j++ {
+				ops = append(ops, v.geom(r.Intn(7), 1))
+			}
+			kinds["unionmany"]++
+		} else {
+			ka, kb := (i/4)%7, (i/28)%7
+			if i%8 < 4 {
+				// puntal pairs are the cheapest to get wrong: every second pair is Point/MultiPoint only
+				ka, kb = (i/8)%2, (i/16)%2
+			}
+			ops = []geom.Geometry{v.geom(ka, 1), v.geom(kb, 1)}
+			kinds[names[ka]+"x"+names[kb]]++
+		}
 		res := "ERR"
 		func() {
 			defer func() {
@@ -723,16 +816,33 @@ func genUnion(w *bufio.Writer, root *lib.Rng, n int, id *int) {
 					res = "PANIC"
 				}
 			}()
-			if a.Validate() != nil || b.Validate() != nil {
-				res = "INVALID"
-				return
+			for _, g := range ops {
+				if g.Validate() != nil {
+					res = "INVALID"
+					return
+				}
 			}
-			u, err := geom.Union(a, b)
+			var u geom.Geometry
+			var err error
+			if op == "union" {
+				u, err = geom.Union(ops[0], ops[1])
+			} else {
+				u, err = geom.UnionMany(ops)
+			}
 			if err == nil {
 				res = envStr(u.Envelope())
 			}
 		}()
-		fmt.Fprintf(w, "%d\tY\t%s\t%s\t%s\t%s\t%s\n", *id, a.AsText(), b.AsText(), envStr(a.Envelope()), envStr(b.Envelope()), res)
+		wkts := make([]string, len(ops))
+		envs := make([]string, len(ops))
+		for j, g := range ops {
+			wkts[j] = g.AsText()
+			envs[j] = envStr(g.Envelope())
+		}
+		if len(ops) == 0 {
+			wkts, envs = []string{"-"}, []string{"-"}
+		}
+		fmt.Fprintf(w, "%d\tY\t%s\t%s\t%s\t%s\n", *id, op, strings.Join(wkts, ";"), strings.Join(envs, "|"), res)
 		*id++
 	}
 }
@@ -868,14 +978,15 @@ func main() {
 	genNew(w, root.Fork(), a.N/4, &id)
 	genContainsFloat(w, root.Fork(), a.N/2, &id)
 	genKeys(w, root.Fork(), a.N/4, &id)
-	genUnion(w, root.Fork(), a.N/10, &id)
+	unionKinds := map[string]int{}
+	genUnion(w, root.Fork(), a.N/5, &id, unionKinds)
 	genFloatBoxes(w, root.Fork(), a.N, &id)
 	stats := map[string]interface{}{
 		"geometry_classes": classes, "geometry_kinds_P_L_Y_MP_ML_MY_GC": kinds, "geometry_ctypes": cts,
 		"empty_geometries": empties,
 		"unary_envelopes":  nu, "unary_lattice": lUnary, "pairs": np, "pair_lattice": lPair,
 		"triples": nt, "triple_lattice": lTriple, "new_envelope_lists": a.N / 4,
-		"float_contains": a.N / 2, "float_keys": a.N / 4, "union_pairs": a.N / 10,
+		"float_contains": a.N / 2, "float_keys": a.N / 4, "union_cases": a.N / 5, "union_kind_pairs": unionKinds,
 		"float_boxes": a.N, "float_box_scales": scales, "long_sequence_lengths": "16..70",
 	}
 	js, _ := json.Marshal(stats)
